@@ -22,7 +22,9 @@ ASSUMPTIONS = ['formatting inside decorators is restricted to the simple {key} g
 
 def run(env, res):
     res.rule = ('directed families (expectation from the property text) first, then seeded random pipelines '
-                '(1-3 pipelines, 1-4 groups, 0-4 steps per group, decorators with p~0.25 each); a case is '
+                '(1-3 pipelines, 1-4 groups, 0-4 steps per group, decorators with p~0.25 each, foreach items incl. '
+                'None/0/\'\'/False/[]/{}, 12% with a malformed group body or sequence item, 35% written in another '
+                'yaml layout: flow style, JSON, first step on line 1, other indentation); a case is '
                 'non-trivial when the model accepts it and it terminates; distinct by canonical program text')
     directed = [('c02', fo.c02_family, env.n(900, 100000)), ('c01-straight', fo.c01_family, env.n(150, 2000))]
     flowcheck.run_streams(env, res, directed, env.n(400, 15000), weights={'stop': 2, 'stoppipeline': 2, 'stopstepgroup': 2.5, 'jump': 2, 'call': 3, 'pype': 2, 'fail': 1.5},
